@@ -1,0 +1,12 @@
+//go:build verif
+
+// Contracts for the deductive verifier in /verif (comment-only; compiled only with -tags verif).
+package protocol
+
+// C10: the ranking of a block reads the block's account trie (store.CBlock.collectUnregisters finds there the candidates that
+// unregistered in the block); gh("ranked", db) counts the rankings the store has been asked for.  Assumed interface contracts.
+//@ func (ChainDB).CandidatesRanking   trusted
+//@   modifies gh("ranked", recv)
+//@   ensures gh("ranked", recv) == old(gh("ranked", recv)) + 1
+//@ func (ChainDB).GetActDatabase   trusted
+//@   modifies nothing
